@@ -8,7 +8,75 @@ THEMES = (("watchdog", 600, 0, None, 0), ("busy_sender", 260, 0, None, 0), ("lat
 FILES = ["Props/C11.v"]
 
 
+def busy_neighbour(run):
+    """Sub-second timing the macro-step model cannot express: connection A receives traffic more often than the node's
+    wake-up interval for the whole run, connection B stays silent.  B's watchdog must not depend on A being quiet: B
+    gets its DWR once it has been idle for longer than the idle timeout and is closed (watchdog reason) when no DWA
+    comes.  Judged on the implementation (virtual time)."""
+    import nodesim as NS
+    from vsim import Sim
+    for wakeup, idle, dwa, period in ((2, 3, 2, 0.25), (3, 2, 4, 1.0), (1, 4, 1, 0.4)):
+        sim = Sim(seed=1, t0=NS.T0)
+        try:
+            sim.script_random([77, 12345])
+            node = sim.node_mod.Node("srv.example.net", "example.net", ip_addresses=["10.0.0.1"], tcp_port=3868)
+            node.wakeup_interval, node.idle_timeout, node.dwa_timeout = wakeup, idle, dwa
+            app = sim.app_mod.SimpleThreadingApplication(4, is_auth_application=True, request_handler=lambda a, m: None)
+            peers = [node.add_peer("aaa://cli%d.example.net" % i, "example.net") for i in range(2)]
+            node.add_application(app, peers)
+            node.start()
+            sim.run()
+            rem = []
+            for i in range(2):
+                sim.script_random([1000 + i])
+                r = sim.connect_in()
+                sim.run()
+                r.feed(NS.build_message(dict(kind="cer", host="cli%d.example.net" % i, hbh=1, e2e=1)))
+                sim.run()
+                r.take_messages()
+                rem.append(r)
+            t_start = sim.now
+            vtime = sim.vmodules["time"]
+            horizon = idle + dwa + 3 * wakeup + 3
+
+            def chatter():
+                k = 0
+                while sim.now - t_start < horizon:
+                    vtime.sleep(period)
+                    k += 1
+                    rem[0].feed(NS.build_message(dict(kind="dwr", host="cli0.example.net", hbh=1000 + k, e2e=5000 + k)))
+            sim.spawn(chatter, name="chatter")
+            dwr_at, closed_at = None, None
+            steps = int(horizon / 0.5) + 2
+            for _ in range(steps):
+                sim.advance(0.5)
+                if dwr_at is None and any(m.header.is_request and m.header.command_code == 280 for m in rem[1].take_messages()):
+                    dwr_at = sim.now - t_start
+                if closed_at is None and rem[1].closed_by_node:
+                    closed_at = sim.now - t_start
+            case = {"scenario": "silent connection beside a busy one", "wakeup_interval": wakeup, "idle_timeout": idle,
+                    "dwa_timeout": dwa, "traffic_period_on_the_other_connection": period}
+            run.count(1, [("busy-neighbour", wakeup, idle, dwa, period)])
+            reason = node.peers["cli1.example.net"].disconnect_reason
+            ok = (dwr_at is not None and dwr_at <= idle + wakeup + 1.5 and closed_at is not None
+                  and closed_at <= dwr_at + dwa + wakeup + 1.5 and reason == sim.peer_mod.DISCONNECT_REASON_DWA_TIMEOUT)
+            if not ok or sim.thread_deaths:
+                run.violation("idle-sends-one", case, {"dwr_after_s": dwr_at, "closed_after_s": closed_at, "reason": reason,
+                                                       "deaths": [str(d)[:80] for d in sim.thread_deaths]},
+                              {"dwr_within_s": idle + wakeup + 1.5, "then_closed_within_s": dwa + wakeup + 1.5, "reason": "watchdog timeout"},
+                              what="a silent connection gets no watchdog / is not closed while another connection keeps the node busy")
+        finally:
+            sim.shutdown()
+
+
 def check(run):
+    orig_obligations = run.obligations
+
+    def obligations_then_neighbour(files):
+        out = orig_obligations(files)
+        busy_neighbour(run)
+        return out
+    run.obligations = obligations_then_neighbour
     return nodecheck.run(run, "C11", FILES, PROFILE, W, N_QUICK, N_THOROUGH, LENGTH, themes=THEMES)
 
 
